@@ -50,7 +50,16 @@ RULE = ("seeded production histories of one scalar feature (float64 with NaN as 
         "BasinProxyFeature does not: NOTE, nothing reported), queried before and after reading "
         "the data, and a hierarchy child on top of the mapped dataset; the mapped values are "
         "compared with the model's origin[map]; finally the mapped feature is exported (filtered) "
-        "into a new file whose stored and reported summaries are judged like any file's. Stored attributes after every step are "
+        "into a new file whose stored and reported summaries are judged like any file's. Uneven "
+        "files: the scalar feature holds MORE or FEWER events than 'experiment:event count' (a "
+        "second feature stored by the same calls sorts before / after it; the last append calls "
+        "stored only the feature, only the other feature, or the count was edited with raw h5py to "
+        "less / more; in 60 % the events beyond the count carry the minimum and / or maximum), then "
+        "attributes stripped, copied (compress / repack / condense / rtdc_copy), count edited again; "
+        "read directly and as a file basin of another file whose length is the count or the "
+        "feature's length. Every final report of a file is asked three ways: min()/max()/mean() "
+        "before the data are read, np.min/np.max/np.mean(obj), and again on a fresh lookup after "
+        "the read - each judged against the values the SAME object hands out. Stored attributes after every step are "
         "compared with the Lean model, reported values with numpy nanmin/nanmax (exact) and the "
         "exact rational mean (|diff| <= 1e-12 * largest finite magnitude) of the feature's actual "
         "values (children: the root's values under the datasets' effective filters). RULE for "
@@ -337,6 +346,59 @@ def gen_foreign_append_case(rng, thorough):
     return {"kind": "file", "feat": feat, "ops": ops, "cb": rng.choice([1, 2 ** 20]), "foreign_append": True}
 
 
+COMPANIONS = ["area_cvx", "volume"]     # sorts before / after every feature under test
+
+
+def gen_uneven_case(rng, thorough):
+    """a file in which the scalar feature under test holds MORE (or fewer) events than the file's
+    'experiment:event count': the last append calls stored only some of the features (the writer
+    takes the event count from the alphabetically first feature), a second feature got further
+    events, or the count was edited with raw h5py (interrupted / foreign recordings).  Half of
+    the time the events beyond the count carry the minimum / maximum.  The summaries reported
+    must describe exactly the values the feature object hands out, whatever it does with the
+    surplus."""
+    feat = rng.choice(FEATS_FLOAT * 3 + FEATS_INT)
+    comp = rng.choice(COMPANIONS + COMPANIONS[:1])
+    n = rng.choice([2, 3, rng.randint(2, 14), rng.randint(4, 24 if thorough else 14)])
+    vals = gen_vals(rng, n, feat)
+    c = rng.randint(1, n - 1)
+    if rng.random() < 0.6:
+        # the events from position c on carry the minimum and / or the maximum
+        fin = [(untok(t), i) for i, t in enumerate(vals) if t != "nan"]
+        if fin:
+            which = rng.choice([[min], [max], [min, max]])
+            pos = n - 1
+            for fn in which:
+                i = fn(fin)[1]
+                if i < c and pos >= c:
+                    vals[i], vals[pos] = vals[pos], vals[i]
+                    fin = [(untok(t), j) for j, t in enumerate(vals) if t != "nan"]
+                    pos -= 1
+    mech = rng.choice(["partial-append", "partial-append", "count-edit", "count-edit", "cotail"])
+    ops = []
+    if mech == "partial-append":
+        ops += [["cowrite", part, rng.random() < 0.5] for part in composition(rng, vals[:c])]
+        ops += [["write", part, rng.random() < 0.5] for part in composition(rng, vals[c:])]
+    else:
+        ops += [["cowrite", part, rng.random() < 0.5] for part in composition(rng, vals)]
+        if mech == "count-edit":
+            ops.append(["count", rng.choice([c, c, c, n + rng.randint(1, 3)])])
+        else:
+            ops.append(["cotail", rng.randint(1, 4)])
+    if rng.random() < 0.3:
+        ops.append(["strip", rng.choice(["100", "010", "001", "111", "110", "011", "101"])])
+    if rng.random() < 0.35:
+        ops.append(["copy", rng.choice(["compress", "repack", "condense", "rtdc_copy"])])
+        if rng.random() < 0.3:
+            ops.append(["count", rng.randint(1, n + 2)])
+    case = {"kind": "file", "feat": feat, "ops": ops, "cb": rng.choice([1, 2 ** 20]),
+            "companion": comp, "uneven": mech, "route": rng.choice(["direct", "direct", "basin"])}
+    if case["route"] == "basin":
+        # the file serves its feature as a basin of another file with `nref` events
+        case["nref"] = rng.choice(["count", "len"])
+    return case
+
+
 def gen_join_case(rng):
     feat = rng.choice(FEATS_FLOAT * 2 + ["fl1_max"])
     k = rng.choice([2, 2, 3, 3, 4])
@@ -515,7 +577,9 @@ def model_lines(case, res=None):
             elif op[0] == "poke":
                 v = true_summary(cur, op[1]) if op[2] == "true" else op[2]
                 lines.append((f"poke {op[1]} {v}", None))
-            elif op[0] == "write":
+            elif op[0] in ("write", "cowrite"):
+                # (the model follows the one feature; what other features of the file hold and
+                # what the file's event count says - ops cotail / count - does not enter it)
                 lines.append(("write " + " ".join(op[1]), None))
                 n += len(op[1])
                 cur += list(op[1])
@@ -534,6 +598,9 @@ def model_lines(case, res=None):
                 cur = [v for v, b in zip(cur, m) if b]
             lines.append(("stored", "stored"))
         lines.append(("report", "report"))
+        if case.get("uneven") and res and "count" in res:
+            # the file's event count differs from the number of stored events: model `exposed`
+            lines.append((f"rcount {res['count']}", "rcount"))
     elif kind == "join":
         lines.append(("new", None))
         for i in range(len(case["files"])):
@@ -650,7 +717,18 @@ def write_file(path, feat, writes, w=None, meta_i=0):
 
 def final_report(ds, feat):
     f = ds[feat]
-    return {"rep": [f.min(), f.max(), f.mean()], "data": np.array(f[:]), "n": len(f)}
+    out = {"rep": [f.min(), f.max(), f.mean()], "data": np.array(f[:]), "n": len(f),
+           "count": len(ds)}
+    # the same questions asked the numpy way (np.min(obj) hands over to obj.min() if there is
+    # one) and once more after the data were read; a feature object that does not support this
+    # reports nothing that way
+    try:
+        out["rep_np"] = [np.min(f), np.max(f), np.mean(f)] if summaries_of(f) is not None else None
+    except Exception:
+        out["rep_np"] = None
+    f2 = ds[feat]
+    out["rep_again"] = [f2.min(), f2.max(), f2.mean()]
+    return out
 
 
 def run_impl(case, wd):
@@ -732,8 +810,21 @@ def _run_impl(case, wd, out, w):
                             d.attrs[("min", "max", "mean")[op[1]]] = fn(d[:])
                         else:
                             d.attrs[("min", "max", "mean")[op[1]]] = untok(op[2])
-                elif op[0] in ("write", "replace"):
-                    mode = "append" if op[0] == "write" else "replace"
+                elif op[0] in ("cotail", "count"):
+                    if not exists:
+                        return {"invalid": True}
+                    if op[0] == "cotail":
+                        # further events of the OTHER feature only
+                        hw = w.get(path, "append", keep=False)
+                        hw.store_feature(case["companion"], 1.0 + np.arange(op[1]) / 4.0)
+                        hw.h5file.flush()
+                        w.close()
+                    else:
+                        w.close()
+                        with h5py.File(path, "a") as h5:
+                            h5.attrs["experiment:event count"] = int(op[1])
+                elif op[0] in ("write", "replace", "cowrite"):
+                    mode = "replace" if op[0] == "replace" else "append"
                     if not exists:
                         hw = w.get(path, "reset", keep=False)
                         hw.store_metadata(_meta())
@@ -752,6 +843,9 @@ def _run_impl(case, wd, out, w):
                         w.close()
                         return {"invalid": True}
                     hw.store_feature(feat, _arr(feat, op[1]))
+                    if op[0] == "cowrite":
+                        # a second feature stored by the same call
+                        hw.store_feature(case["companion"], 1.0 + np.arange(len(op[1])) / 4.0)
                     hw.h5file.flush()
                 else:
                     w.close()
@@ -798,6 +892,18 @@ def _run_impl(case, wd, out, w):
                 return {"invalid": True}
             with dclab.new_dataset(path) as ds:
                 out.update(final_report(ds, feat))
+            if case.get("route") == "basin":
+                # the same file serving the feature as a basin of another file
+                pb = wd / "ref.rtdc"
+                nref = out["count"] if case.get("nref") == "count" else out["n"]
+                with dclab.RTDCWriter(pb, mode="reset") as hw:
+                    hw.store_metadata(_meta())
+                    hw.store_feature("time", np.arange(max(1, nref)) / 8.0)
+                    hw.store_basin("verif", "file", "hdf5", [path], basin_feats=[feat])
+                with dclab.new_dataset(pb) as ds:
+                    if feat not in ds:
+                        return {"error": "basin feature not available"}
+                    out["via_basin"] = final_report(ds, feat)
         elif kind == "join":
             paths = []
             for i, writes in enumerate(case["files"]):
@@ -1145,7 +1251,19 @@ def spec_check(case, res):
                 bad.append("mapped feature exported to a new file: exported values differ from the "
                            "filtered mapped values")
         return bad
-    return oracle(res["rep"], res["data"], skip=tainted(case))
+    bad = oracle(res["rep"], res["data"], skip=tainted(case))
+    for key, how in (("rep_np", "asked through np.min/np.max/np.mean"),
+                     ("rep_again", "asked again after the data were read")):
+        if res.get(key) is not None:
+            bad += [f"{how}: " + b for b in oracle(res[key], res["data"], skip=tainted(case))]
+    vb = res.get("via_basin")
+    if vb:
+        bad += ["served as a basin of another file: " + b
+                for b in oracle(vb["rep"], vb["data"], skip=tainted(case))]
+        if vb.get("rep_np") is not None:
+            bad += ["served as a basin of another file (np.min/np.max/np.mean): " + b
+                    for b in oracle(vb["rep_np"], vb["data"], skip=tainted(case))]
+    return bad
 
 
 def tainted(case):
@@ -1250,6 +1368,22 @@ def mirror_check(case, res, answers):
                     tok(rep[0]) != tok(untok(m_rep[0])) or tok(rep[1]) != tok(untok(m_rep[1]))
                     or not close_mean(rep[2], frac(m_rep[2]), scale)):
                 return f"{tag}: reported {rep} model {m_rep}"
+        elif tag == "rcount":
+            secs = [x.split() for x in ans.split(" ## ")]
+            if len(secs) != 4:
+                return f"event count {res['count']}: model answers {ans!r}"
+            for key, r in (("rep", res), ("via_basin", res.get("via_basin"))):
+                if not r:
+                    continue
+                rep, data = r["rep"], r["data"]
+                _mn, _mx, _mean, scale = exact_truth(data)
+                if int(secs[3][0]) != len(data):
+                    return (f"event count {res['count']}: the feature hands out {len(data)} events"
+                            f" ({key}), model {secs[3][0]}")
+                if any(k not in tainted(case) and not (
+                        tok(rep[k]) == tok(untok(secs[0][k])) if k < 2
+                        else close_mean(rep[k], frac(secs[0][k]), scale)) for k in range(3)):
+                    return f"event count {res['count']}: reported {rep} ({key}) model {secs[0]}"
         elif tag in ("report", "query"):
             if tag == "query":
                 st = res["steps"][qi // 2]
@@ -1273,7 +1407,7 @@ def mirror_check(case, res, answers):
 def is_nontrivial(case):
     if case["kind"] != "file":
         return True
-    toks = [t for op in case["ops"] if op[0] in ("write", "replace", "raw") for t in op[1]]
+    toks = [t for op in case["ops"] if op[0] in ("write", "cowrite", "replace", "raw") for t in op[1]]
     return len(case["ops"]) >= 2 and ("nan" in toks or
                                       sum(1 for o in case["ops"] if o[0] == "write") > 1)
 
@@ -1287,7 +1421,7 @@ def shrink(case, wd):
     if c["kind"] == "file":
         c["ops"] = common.ddmin(c["ops"], lambda ops: fails(dict(c, ops=ops)), max_tests=120)
         for i, op in enumerate(c["ops"]):
-            if op[0] in ("write", "replace", "raw") and len(op[1]) > 1:
+            if op[0] in ("write", "cowrite", "replace", "raw") and len(op[1]) > 1:
                 def f2(vals, i=i):
                     ops = copy.deepcopy(c["ops"])
                     ops[i][1] = vals
@@ -1295,7 +1429,7 @@ def shrink(case, wd):
                 c["ops"][i][1] = common.ddmin(op[1], f2, max_tests=60)
         # simplify the numbers
         for i, op in enumerate(c["ops"]):
-            if op[0] in ("write", "replace", "raw"):
+            if op[0] in ("write", "cowrite", "replace", "raw"):
                 for j, t in enumerate(op[1]):
                     if t not in ("nan", "+inf", "-inf"):
                         for simple in ("1", "3"):
@@ -1327,7 +1461,7 @@ def describe(case):
     d = copy.deepcopy(case)
     if d["kind"] == "file":
         d["readable"] = [[op[0], [untok(t) if t not in ("nan", "+inf", "-inf") else t for t in op[1]]]
-                         + op[2:] if op[0] in ("write", "replace", "raw") else op for op in d["ops"]]
+                         + op[2:] if op[0] in ("write", "cowrite", "replace", "raw") else op for op in d["ops"]]
     return d
 
 
@@ -1349,6 +1483,9 @@ CORPUS = [
      "steps": [["filt", "all", "all"]]},
     {"kind": "child", "feat": "verif_tmp", "container": "temporary", "writes": [["1", "2", "3"]],
      "steps": [["filt", "110", "all"], ["data", 5]]},             # data change, no filter change                                  # nothing filtered out, ndarray parent
+    {"kind": "file", "feat": "deform", "companion": "area_cvx", "uneven": "partial-append",
+     "route": "basin", "nref": "count",
+     "ops": [["cowrite", ["3", "5"], False], ["write", ["1", "9"], False]]},      # feature longer than event count
     {"kind": "file", "feat": "fl1_max", "ops": [["write", ["5", "7"], False], ["write", ["0"], True],
                                                 ["export", "011"], ["copy", "condense"]]},
 ]
@@ -1373,6 +1510,9 @@ def run(ctx):
         cases.append(gen_basin_case(ctx.rng))
     for _ in range(ctx.n(60, 500)):
         cases.append(gen_mapbasin_case(ctx.rng))
+    # (appended last: the cases above are the same as before for every seed)
+    for _ in range(ctx.n(80, 700)):
+        cases.append(gen_uneven_case(ctx.rng, ctx.thorough))
 
     wd = ctx.workdir / "w"
     results = [run_impl(c, wd) for c in cases]
@@ -1433,6 +1573,20 @@ def run(ctx):
                 ctx.stat("mapped_feature_offers_summaries", int(res["rep"] is not None))
                 if res["rep"] is None:
                     unsupported.add(res["ftype"])
+        if c["kind"] == "file" and c.get("uneven") and "count" in res:
+            ctx.stat("uneven=" + c["uneven"])
+            ctx.stat("uneven_route=" + c.get("route", "direct"))
+            rel = "longer_than" if res["n"] > res["count"] else \
+                "shorter_than" if res["n"] < res["count"] else "as_long_as"
+            ctx.stat(f"feature_{rel}_event_count")
+            if model is not None:
+                # discriminating power (model): would a reader that hands out only the first
+                # `event count` events but trusts the stored attributes be wrong on this file?
+                tg = [t for (_l, t) in model_lines(c, res)]
+                if "rcount" in tg:
+                    secs = model[idx][tg.index("rcount")].split(" ## ")
+                    if len(secs) == 4:
+                        ctx.stat("trimming_reader_would_be_wrong", int(secs[1] != secs[2]))
         if c["kind"] == "file":
             for op in c["ops"]:
                 ctx.stat("op=" + (op[0] if op[0] != "copy" else "copy:" + op[1]))
@@ -1440,7 +1594,7 @@ def run(ctx):
                     nchunks = 1 if not op[2] else -(-len(op[1]) // op[2])
                     ctx.stat("raw_chunks=" + ("1" if nchunks <= 1 else "2+"))
             ctx.stat("feat=" + ("int" if c["feat"] in FEATS_INT else "float"))
-            toks = [t for op in c["ops"] if op[0] in ("write", "replace", "raw") for t in op[1]]
+            toks = [t for op in c["ops"] if op[0] in ("write", "cowrite", "replace", "raw") for t in op[1]]
             ctx.stat("with_nan", int("nan" in toks))
             ctx.stat("with_inf", int("+inf" in toks or "-inf" in toks))
             ctx.stat("appends", sum(1 for o in c["ops"] if o[0] == "write"))
